@@ -1,4 +1,5 @@
 From Coq Require Import Extraction ExtrOcamlBasic.
-From RV Require Import Compact.Model.
+From RV Require Import Compact.Model Compact.Guard Compact.Pass.
 Extraction Language OCaml.
-Extraction "../ocaml/gen/c13_model.ml" guard compact reloc abs.
+Extraction "../ocaml/gen/c13_model.ml" guard compact reloc abs grun ginit answer v_code
+  pass_okP msr lexltb ren_paths pass compact_loop fpaths fids maxN packedb lowest_free.
